@@ -52,6 +52,9 @@ def stepFamilies (st : St) (cmd : List String) (got : String) : St × Verdict :=
   | none =>
   match stepL2Q st cmd got with
   | some r => r
+  | none =>
+  match stepIter2 st cmd got with
+  | some r => r
   | none => (st, if got.startsWith "skip" then none else some "skip")
 
 /-- plane-level BSI tracking runs alongside the command families: the extra checks use the state BEFORE the line -/
@@ -59,14 +62,16 @@ def stepAll (st : St) (cmd : List String) (got : String) : St × Verdict :=
   let extra := checkBsiL2 st cmd got
   let extraS64 := checkSer64L2 st cmd got
   let (l2it', extraIt) := shadowIterL2 st cmd got
+  let (l2uit', l2it64', extraIt2) := shadowIter2 st cmd got
+  let extraIt := match extraIt with | some m => some m | none => extraIt2
   let (st', v) := if cmd.head? == some "bplanes" then (st, (none : Verdict)) else stepFamilies st cmd got
   let st'' := trackBsiL2 st' cmd
-  ({ st'' with l2it := l2it' }, match v with | some m => some m | none => (match extra with | some m => some m | none => (match extraIt with | some m => some m | none => extraS64)))
+  ({ st'' with l2it := l2it', l2uit := l2uit', l2it64 := l2it64' }, match v with | some m => some m | none => (match extra with | some m => some m | none => (match extraIt with | some m => some m | none => extraS64)))
 
 def pureQueries : List String :=
   ["card", "empty", "has", "min", "max", "rank", "sel", "cir", "iwi", "eq", "toarr", "toexarr", "nv", "pv", "nav", "pav",
    "andcard", "orcard", "isect", "wf", "size", "ser", "rd", "wrfail", "wrfailall", "rdsplit", "trunc", "chkeq", "dump", "dig", "kern", "kernwf", "popcnt", "dense", "densechk", "safe", "zdetach", "zsame", "frz", "frzsmall", "frzwfail", "fchk", "fgc",
-   "sermany64", "sched", "concdec", "concagg", "bplanes", "hasnext", "peek?", "peek!", "iterate", "values", "backward", "unset", "ranges", "l2lazy", "l2dense", "l2ser64", "l2q", "l2q2"]
+   "sermany64", "sched", "concdec", "concagg", "bplanes", "hasnext", "peek?", "peek!", "iterate", "values", "backward", "unset", "ranges", "l2lazy", "l2dense", "l2ser64", "l2q", "l2q2", "l2iterate", "l2seq", "l2ranges", "hasnext64", "peek64"]
 
 def aggOps : List String := ["fastor", "fastand", "heapor", "heapxor", "paror", "parand", "parheapor", "andany"]
 
